@@ -31,9 +31,19 @@ RULE = (
 ASSUMPTIONS = ["second 60 is generated only at real leap-second instants; the registry is saved and restored around every history"]
 
 NAMES = ["uuid", "date-time", "x-unregistered", "x-custom"]
-PREDS = {"always_true": lambda s: True, "always_false": lambda s: False, "is_lower": lambda s: s.islower(), "delegates_to_unregistered": lambda s: format_checker("x-inner-unregistered", s)}
+class StrSub(str):
+    """A string that is an instance of a proper subclass of str (str/Enum mixins, tokens ...)."""
+
+
+def _raises_for_upper(s):
+    if s.isupper():
+        raise ZeroDivisionError("checker failed on %r" % (s,))
+    return False
+
+
+PREDS = {"raises_for_upper": _raises_for_upper, "always_true": lambda s: True, "always_false": lambda s: False, "is_lower": lambda s: s.islower(), "delegates_to_unregistered": lambda s: format_checker("x-inner-unregistered", s)}
 INNER_WARNS = {"delegates_to_unregistered": 1}
-VALUES = ["abc", "ABC", "", "123e4567-e89b-12d3-a456-426614174000", "2020-02-29T23:59:59Z", "1", 1, None, True, ["abc"], {"a": "abc"}, 1.5]
+VALUES = [StrSub("abc"), StrSub("ABC"), "abc", "ABC", "", "123e4567-e89b-12d3-a456-426614174000", "2020-02-29T23:59:59Z", "1", 1, None, True, ["abc"], {"a": "abc"}, 1.5]
 _PRISTINE = dict(format_checker._callable_register)
 
 
@@ -96,9 +106,13 @@ def check_state(st, model, hist_names, names=None):
                             with warnings.catch_warnings():
                                 warnings.simplefilter("ignore")
                                 ok = bool(model[name][1](v))
-                        except Exception:
-                            ok = None
-                        want, want_warn = ("ACCEPT" if ok else "REJECT"), INNER_WARNS.get(model[name][0], 0)
+                        except Exception as exc:
+                            ok = exc
+                        if isinstance(ok, Exception):
+                            # a checker that raises: its exception is the caller's to see (and the checker stays registered)
+                            want, want_warn = "OTHER:" + type(ok).__name__, 0
+                        else:
+                            want, want_warn = ("ACCEPT" if ok else "REJECT"), INNER_WARNS.get(model[name][0], 0)
                     else:
                         want, want_warn = "ACCEPT", 1
                 else:
@@ -208,7 +222,10 @@ def run_registry(st, first, depth):
                 if name in ref:
                     with warnings.catch_warnings():
                         warnings.simplefilter("ignore")
-                        want, want_warn = ("ACCEPT" if ref[name][1](v) else "REJECT"), INNER_WARNS.get(ref[name][0], 0)
+                        try:
+                            want, want_warn = ("ACCEPT" if ref[name][1](v) else "REJECT"), INNER_WARNS.get(ref[name][0], 0)
+                        except Exception as exc:
+                            want, want_warn = "OTHER:" + type(exc).__name__, 0
                 else:
                     want, want_warn = "ACCEPT", 1
                 if kind != want or nwarn != want_warn:
